@@ -5,7 +5,9 @@ package ast
 import (
 	"bytes"
 	"fmt"
+	"sort"
 	"strconv"
+	"strings"
 
 	"github.com/robfig/soy/data"
 )
@@ -676,7 +678,12 @@ type FloatNode struct {
 }
 
 func (n *FloatNode) String() string {
-	return strconv.FormatFloat(n.Value, 'g', -1, 64)
+	// a float literal has a fraction or an exponent (else it reads as an integer).
+	var str = strconv.FormatFloat(n.Value, 'g', -1, 64)
+	if !strings.ContainsAny(str, ".e") {
+		str += ".0"
+	}
+	return str
 }
 
 type StringNode struct {
@@ -749,16 +756,43 @@ func (n *MapLiteralNode) String() string {
 	if len(n.Items) == 0 {
 		return "[:]"
 	}
+	var keys = make([]string, 0, len(n.Items))
+	for k := range n.Items {
+		keys = append(keys, k)
+	}
+	sort.Strings(keys)
 	var expr = "["
-	var first = true
-	for k, v := range n.Items {
-		if !first {
+	for i, k := range keys {
+		if i > 0 {
 			expr += ", "
 		}
-		expr += fmt.Sprintf("'%s': %s", k, v.String())
-		first = false
+		expr += quoteString(k) + ": " + n.Items[k].String()
 	}
 	return expr + "]"
+}
+
+// quoteString returns the Soy string literal for the given string.
+func quoteString(s string) string {
+	var q = []rune{'\''}
+	for _, ch := range s {
+		switch ch {
+		case '\\', '\'':
+			q = append(q, '\\', ch)
+		case '\n':
+			q = append(q, '\\', 'n')
+		case '\r':
+			q = append(q, '\\', 'r')
+		case '\t':
+			q = append(q, '\\', 't')
+		case '\b':
+			q = append(q, '\\', 'b')
+		case '\f':
+			q = append(q, '\\', 'f')
+		default:
+			q = append(q, ch)
+		}
+	}
+	return string(append(q, '\''))
 }
 
 func (n *MapLiteralNode) Children() []Node {
@@ -843,7 +877,7 @@ type NotNode struct {
 }
 
 func (n *NotNode) String() string {
-	return "not " + n.Arg.String()
+	return "not " + operand(n.Arg, precUnary, false)
 }
 
 func (n *NotNode) Children() []Node {
@@ -856,7 +890,12 @@ type NegateNode struct {
 }
 
 func (n *NegateNode) String() string {
-	return "-" + n.Arg.String()
+	// "-5" reads as a negative literal, so a literal operand is parenthesized.
+	switch n.Arg.(type) {
+	case *IntNode, *FloatNode:
+		return "-(" + n.Arg.String() + ")"
+	}
+	return "-" + operand(n.Arg, precUnary, false)
 }
 
 func (n *NegateNode) Children() []Node {
@@ -870,7 +909,81 @@ type BinaryOpNode struct {
 }
 
 func (n *BinaryOpNode) String() string {
-	return n.Arg1.String() + " " + n.Name + " " + n.Arg2.String()
+	var prec = binaryPrecedence[n.Name]
+	return operand(n.Arg1, prec, false) + " " + n.Name + " " + operand(n.Arg2, prec, true)
+}
+
+// Operator precedence, used to print the parentheses that an expression needs
+// to parse back to the same tree.
+const (
+	precTernary = iota
+	precElvis
+	precOr
+	precAnd
+	precEquality
+	precRelational
+	precAdditive
+	precMultiplicative
+	precUnary
+	precPrimary
+)
+
+var binaryPrecedence = map[string]int{
+	"?:": precElvis,
+	"or": precOr, "and": precAnd,
+	"==": precEquality, "!=": precEquality,
+	"<": precRelational, "<=": precRelational, ">": precRelational, ">=": precRelational,
+	"+": precAdditive, "-": precAdditive,
+	"*": precMultiplicative, "/": precMultiplicative, "%": precMultiplicative,
+}
+
+func precedence(n Node) int {
+	switch n := n.(type) {
+	case *TernNode:
+		return precTernary
+	case *NotNode, *NegateNode:
+		return precUnary
+	case *MulNode:
+		return binaryPrecedence[n.Name]
+	case *DivNode:
+		return binaryPrecedence[n.Name]
+	case *ModNode:
+		return binaryPrecedence[n.Name]
+	case *AddNode:
+		return binaryPrecedence[n.Name]
+	case *SubNode:
+		return binaryPrecedence[n.Name]
+	case *EqNode:
+		return binaryPrecedence[n.Name]
+	case *NotEqNode:
+		return binaryPrecedence[n.Name]
+	case *GtNode:
+		return binaryPrecedence[n.Name]
+	case *GteNode:
+		return binaryPrecedence[n.Name]
+	case *LtNode:
+		return binaryPrecedence[n.Name]
+	case *LteNode:
+		return binaryPrecedence[n.Name]
+	case *OrNode:
+		return binaryPrecedence[n.Name]
+	case *AndNode:
+		return binaryPrecedence[n.Name]
+	case *ElvisNode:
+		return binaryPrecedence[n.Name]
+	}
+	return precPrimary
+}
+
+// operand prints n as an operand of an operator of the given precedence,
+// parenthesized if it would otherwise associate differently.  Binary operators
+// are left associative, so a right operand of the same precedence needs them too.
+func operand(n Node, parentPrec int, right bool) string {
+	var prec = precedence(n)
+	if prec < parentPrec || (prec == parentPrec && right) {
+		return "(" + n.String() + ")"
+	}
+	return n.String()
 }
 
 func (n *BinaryOpNode) Children() []Node {
@@ -900,7 +1013,7 @@ type TernNode struct {
 }
 
 func (n *TernNode) String() string {
-	return n.Arg1.String() + "?" + n.Arg2.String() + ":" + n.Arg3.String()
+	return operand(n.Arg1, precElvis, false) + " ? " + n.Arg2.String() + " : " + n.Arg3.String()
 }
 
 func (n *TernNode) Children() []Node {
